@@ -47,6 +47,9 @@ type exec struct {
 	secure bool
 	dead   bool
 	climit uint16
+	baseRoot common.Hash // root of the snapshot (kept referenced: `gc` never drops it)
+	base   anyTrie       // `snap`: the trie the difference / union iterators compare the live trie with
+	failAt, commits int  // write-failure injection: the failAt-th batch write since arming fails (0: never)
 	roots  []common.Hash // roots committed into the current trie.Database and still referenced (commit op), oldest first
 }
 
@@ -143,14 +146,14 @@ func (e *exec) Exec(op string) string {
 	case "case":
 		*e = exec{dead: false}
 		e.disk = dbm.NewMemDB()
-		e.tdb = trie.NewDatabase(e.disk)
+		e.tdb = trie.NewDatabase(e.fdb())
 		e.open(common.EmptyHash)
 		return "ok"
 	case "new":
 		kind, _ := hx.Arg(toks, "kind")
 		*e = exec{secure: kind == "secure", climit: uint16(argInt(toks, "cl"))}
 		e.disk = dbm.NewMemDB()
-		e.tdb = trie.NewDatabase(e.disk)
+		e.tdb = trie.NewDatabase(e.fdb())
 		e.open(common.EmptyHash)
 		return "ok"
 	}
@@ -182,18 +185,43 @@ func (e *exec) Exec(op string) string {
 	var ans string
 	switch toks[0] {
 	case "put":
-		if err := e.t().TryUpdate(argHex(toks, "k"), argHex(toks, "v")); err != nil {
+		if w, _ := hx.Arg(toks, "w"); w == "1" {
+			// the logging wrappers Update / Delete / Get / Root of the package API
+			if e.secure {
+				e.sec.Update(argHex(toks, "k"), argHex(toks, "v"))
+			} else {
+				e.plain.Update(argHex(toks, "k"), argHex(toks, "v"))
+			}
+			ans = "ok"
+		} else if err := e.t().TryUpdate(argHex(toks, "k"), argHex(toks, "v")); err != nil {
 			ans = "err-missing-node"
 		} else {
 			ans = "ok"
 		}
 	case "del":
-		if err := e.t().TryDelete(argHex(toks, "k")); err != nil {
+		if w, _ := hx.Arg(toks, "w"); w == "1" {
+			if e.secure {
+				e.sec.Delete(argHex(toks, "k"))
+			} else {
+				e.plain.Delete(argHex(toks, "k"))
+			}
+			ans = "ok"
+		} else if err := e.t().TryDelete(argHex(toks, "k")); err != nil {
 			ans = "err-missing-node"
 		} else {
 			ans = "ok"
 		}
 	case "get":
+		if w, _ := hx.Arg(toks, "w"); w == "1" {
+			var v []byte
+			if e.secure {
+				v = e.sec.Get(argHex(toks, "k"))
+			} else {
+				v = e.plain.Get(argHex(toks, "k"))
+			}
+			ans = "v=" + hx.Hex(v)
+			break
+		}
 		v, err := e.t().TryGet(argHex(toks, "k"))
 		if err != nil {
 			ans = "err-missing-node"
@@ -201,9 +229,36 @@ func (e *exec) Exec(op string) string {
 			ans = "v=" + hx.Hex(v)
 		}
 	case "hash":
+		if w, _ := hx.Arg(toks, "w"); w == "1" {
+			if e.secure {
+				ans = "root=" + hx.Hex(e.sec.Root())
+			} else {
+				ans = "root=" + hx.Hex(e.plain.Root())
+			}
+			break
+		}
 		ans = "root=" + hx.Hex(e.t().Hash().Bytes())
 	case "commit":
-		r, err := e.commit()
+		leaves := 0
+		var r common.Hash
+		var err error
+		if lf, _ := hx.Arg(toks, "leaf"); lf == "1" {
+			// Commit with an onleaf callback (how the state layer links account -> storage tries)
+			cb := func(leaf []byte, parent common.Hash) error { leaves++; return nil }
+			if e.secure {
+				r, err = e.sec.Commit(cb, 0)
+			} else {
+				r, err = e.plain.Commit(cb)
+			}
+			if err == nil {
+				e.tdb.Reference(r, common.EmptyHash)
+				e.roots = append(e.roots, r)
+				ans = fmt.Sprintf("root=%s leaves=%d", hx.Hex(r.Bytes()), leaves)
+				break
+			}
+		} else {
+			r, err = e.commit()
+		}
 		if err != nil {
 			ans = "err-commit"
 		} else {
@@ -221,7 +276,7 @@ func (e *exec) Exec(op string) string {
 		}
 	case "gc":
 		// Database.Dereference of the oldest referenced root, unless it is also the newest one
-		if len(e.roots) >= 2 && e.roots[0] != e.roots[len(e.roots)-1] {
+		if len(e.roots) >= 2 && e.roots[0] != e.roots[len(e.roots)-1] && (e.base == nil || e.roots[0] != e.baseRoot) {
 			old := e.roots[0]
 			keep := false
 			for _, r := range e.roots[1:] {
@@ -244,7 +299,7 @@ func (e *exec) Exec(op string) string {
 				ans = "err-dbcommit"
 				break
 			}
-			e.tdb = trie.NewDatabase(e.disk)
+			e.tdb = trie.NewDatabase(e.fdb())
 			e.roots = nil
 		}
 		if _, ok := hx.Arg(toks, "cl"); ok {
@@ -280,7 +335,7 @@ func (e *exec) Exec(op string) string {
 		key := e.tkey(argHex(toks, "k"))
 		root := e.t().Hash()
 		rec := &recorder{}
-		if err := e.t().Prove(key, 0, rec); err != nil {
+		if err := e.t().Prove(key, uint(argInt(toks, "from")), rec); err != nil {
 			ans = "err-prove"
 			break
 		}
@@ -339,7 +394,11 @@ func (e *exec) Exec(op string) string {
 			ans = "res=diff v=" + hx.Hex(v)
 		}
 	default:
-		ans = "bad-op"
+		if a, ok := e.exec2(toks); ok {
+			ans = a
+		} else {
+			ans = "bad-op"
+		}
 	}
 	e.dead = false
 	return ans
@@ -359,6 +418,14 @@ func contentKey(secure bool, m map[string]string) string {
 		sb.WriteString(k + "=" + m[k] + ";")
 	}
 	return sb.String()
+}
+
+func nibbles(b []byte) []byte {
+	out := make([]byte, 0, 2*len(b))
+	for _, x := range b {
+		out = append(out, x>>4, x&15)
+	}
+	return out
 }
 
 // hex-path order of the trie: nibbles, with the terminator greater than every nibble
@@ -394,6 +461,15 @@ func (P) Monitor(c *hx.CaseRun) []hx.Failure {
 		}
 		return k
 	}
+	base := map[string]string{}   // content at the last `snap`
+	pcache := map[string]bool{}   // secure trie: preimages written since the last commit
+	pstored := map[string]bool{}  // secure trie: preimages committed
+	flush := func() {
+		for k := range pcache {
+			pstored[k] = true
+		}
+		pcache = map[string]bool{}
+	}
 	for i, op := range c.Ops {
 		ans := c.Impl[i]
 		toks := hx.Tokens(op)
@@ -410,6 +486,16 @@ func (P) Monitor(c *hx.CaseRun) []hx.Failure {
 			fail("no_missing_node", "cap-flush-lost-nodes", "libs/trie/database.go:Cap", "nodes flushed by Database.Cap cannot be read back from the disk database: "+op+" -> "+ans)
 			continue
 		}
+		if strings.HasPrefix(ans, "leafproof-bad") || strings.HasPrefix(ans, "iter-bad") {
+			fail("leaf_proof_verifies", "leaf-proof-rejected", "libs/trie/iterator.go:LeafProof", "the proof of the leaf an iterator stands on does not verify against the root (or an accessor is inconsistent): "+op+" -> "+ans)
+			continue
+		}
+		if toks[0] == "openmissing" {
+			if ans != "err-missing-root" && ans != "dead" {
+				fail("open_missing_root", "open-missing-root-accepted", "libs/trie/trie.go:New", "a trie was opened at a root hash the database does not hold: "+op+" -> "+ans)
+			}
+			continue
+		}
 		if strings.HasPrefix(ans, "err-") {
 			fail("no_missing_node", ans, "libs/trie", "the trie lost a node it committed itself: "+op+" -> "+ans)
 			continue
@@ -421,11 +507,13 @@ func (P) Monitor(c *hx.CaseRun) []hx.Failure {
 		switch toks[0] {
 		case "case", "new":
 			content = map[string]string{}
+			base, pcache, pstored = map[string]string{}, map[string]bool{}, map[string]bool{}
 			kind, _ := hx.Arg(toks, "kind")
 			secure = kind == "secure"
 		case "put":
 			k, _ := hx.Arg(toks, "k")
 			v, _ := hx.Arg(toks, "v")
+			pcache[k] = true
 			if v == "-" {
 				delete(content, k)
 			} else {
@@ -434,6 +522,7 @@ func (P) Monitor(c *hx.CaseRun) []hx.Failure {
 		case "del":
 			k, _ := hx.Arg(toks, "k")
 			delete(content, k)
+			delete(pcache, k)
 		case "get":
 			k, _ := hx.Arg(toks, "k")
 			want, ok := content[k]
@@ -443,7 +532,127 @@ func (P) Monitor(c *hx.CaseRun) []hx.Failure {
 			if got, _ := hx.Arg(at, "v"); got != want {
 				fail("get_last_written", "get-after-write", "libs/trie/trie.go:TryGet", fmt.Sprintf("get %s = %s, last written %s (op %d)", k, got, want, i))
 			}
+		case "iterfrom", "diff", "union":
+			if ans == "bad-op" {
+				break // no snapshot taken (only in shrunk cases)
+			}
+			// ground truth from the op lines alone: the pairs that must be enumerated (as a set), then the order (path order)
+			want := map[string]bool{}
+			add := func(m map[string]string, keep func(k, v string) bool) {
+				for k, v := range m {
+					if keep(k, v) {
+						want[hx.Hex(tkey(k))+":"+v] = true
+					}
+				}
+			}
+			switch toks[0] {
+			case "iterfrom":
+				st, _ := hx.Arg(toks, "start")
+				start := nibbles(hx.UnHex(st))
+				add(content, func(k, v string) bool {
+					return bytes.Compare(append(nibbles(tkey(k)), 16), start) >= 0
+				})
+			case "diff":
+				add(content, func(k, v string) bool { return base[k] != v })
+			default:
+				add(content, func(k, v string) bool { return true })
+				add(base, func(k, v string) bool { return true })
+			}
+			s, _ := hx.Arg(at, "kv")
+			got := hx.SplitComma(s)
+			seen := map[string]bool{}
+			okSet := len(got) == len(want)
+			for _, g := range got {
+				okSet = okSet && want[g] && !seen[g]
+				seen[g] = true
+			}
+			if !okSet {
+				fail("iter_family_content", toks[0]+"-content", "libs/trie/iterator.go", fmt.Sprintf("%s enumerates %d pairs, the content says %d (or a wrong / repeated pair) (op %d)", toks[0], len(got), len(want), i))
+				break
+			}
+			for j := 1; j < len(got); j++ {
+				a := hx.UnHex(strings.SplitN(got[j-1], ":", 2)[0])
+				b := hx.UnHex(strings.SplitN(got[j], ":", 2)[0])
+				if !bytes.Equal(a, b) && !hexPathLess(a, b) {
+					fail("iter_family_order", toks[0]+"-order", "libs/trie/iterator.go", fmt.Sprintf("%s is not in path order (op %d)", toks[0], i))
+					break
+				}
+			}
+		case "nodeiter":
+			lv, _ := hx.Arg(at, "leaves")
+			pr, _ := hx.Arg(at, "proofs")
+			if lv != fmt.Sprint(len(content)) {
+				fail("iter_complete", "nodeiter-leaves", "libs/trie/iterator.go", fmt.Sprintf("the node iterator passes %s leaves, the content has %d keys (op %d)", lv, len(content), i))
+			}
+			if pr != lv+"/"+lv {
+				fail("leaf_proof_verifies", "leaf-proof-rejected", "libs/trie/iterator.go:LeafProof", fmt.Sprintf("LeafProof of the current leaf does not verify against the root: %s (op %d)", pr, i))
+			}
+		case "getkey", "copywrite":
+			k, _ := hx.Arg(toks, "k")
+			field := "pre"
+			if toks[0] == "copywrite" {
+				field = "origpre"
+				want, ok := content[k]
+				if !ok {
+					want = "-"
+				}
+				v, _ := hx.Arg(toks, "v")
+				o, _ := hx.Arg(at, "orig")
+				cp, _ := hx.Arg(at, "copy")
+				ro, _ := hx.Arg(at, "rootorig")
+				if o != want || cp != v {
+					fail("copy_independent", "copy-not-independent", "libs/trie/secure_trie.go:Copy", fmt.Sprintf("write to a copy: original reads %s (content %s), copy reads %s (written %s) (op %d)", o, want, cp, v, i))
+				}
+				if prev, ok := rootOf[contentKey(secure, content)]; ok && prev != ro {
+					fail("copy_independent", "copy-not-independent", "libs/trie/secure_trie.go:Copy", fmt.Sprintf("the original's root changed after a write to its copy (op %d)", i))
+				}
+			}
+			if secure {
+				got, _ := hx.Arg(at, field)
+				if toks[0] == "copywrite" && got == k && !pcache[k] && !pstored[k] {
+					fail("copy_independent", "copy-not-independent", "libs/trie/secure_trie.go:Copy", fmt.Sprintf("a key written to a copy only is known to the original's key cache: %s (op %d)", k, i))
+				}
+				if got != "nil" && got != k {
+					fail("preimage_exact", "getkey-wrong-preimage", "libs/trie/secure_trie.go:GetKey", fmt.Sprintf("GetKey returns %s for the hash of %s (op %d)", got, k, i))
+				}
+				if got == "nil" && (pcache[k] || pstored[k]) && k != "-" {
+					fail("preimage_kept", "getkey-lost-preimage", "libs/trie/secure_trie.go:GetKey", fmt.Sprintf("the preimage of a written key is not found: %s (op %d)", k, i))
+				}
+			}
+		case "missing":
+			flush()
+			if b, _ := hx.Arg(at, "bad"); b != "0" {
+				fail("missing_node_atomic", "missing-node-not-atomic", "libs/trie/trie.go", fmt.Sprintf("with one node blob missing from the disk database an operation did not (fail, leave the trie unchanged, succeed after the blob is back) or the iterator skipped: %s -> %s (op %d)", op, ans, i))
+			}
+			if n, _ := hx.Arg(at, "nodes"); n != "0" {
+				if e, ok := hx.Arg(at, "errs"); ok && e == "0" {
+					fail("missing_node_atomic", "missing-node-unnoticed", "libs/trie/trie.go", fmt.Sprintf("no removal of a node blob made the operation fail, not even the root's (op %d)", i))
+				}
+			}
+		case "lockprobe":
+			if strings.HasPrefix(ans, "lock=held") {
+				fail("write_failure_keeps_db_usable", "commit-error-leaks-read-lock", "libs/trie/database.go:Commit", "Database.Commit returned an error with the read lock still held: the next writer blocks for ever: "+op+" -> "+ans)
+			}
+		case "diskfail":
+			flush()
+			if b, _ := hx.Arg(at, "bad"); b != "0" {
+				fail("write_failure_loses_nothing", "write-failure-loses-nodes", "libs/trie/database.go:Commit", fmt.Sprintf("after a failed batch write in Database.Commit / Cap the committed trie is not completely readable (or the call never succeeds): %s -> %s (op %d)", op, ans, i))
+			}
+		case "dbstat":
+			if ans != "integrity=ok" {
+				fail("node_db_content_addressed", "node-db-integrity", "libs/trie/database.go", "the node database returned a blob that is not the preimage of its key, or lost a blob: "+ans)
+			}
+		case "snap":
+			base = map[string]string{}
+			for k, v := range content {
+				base[k] = v
+			}
+			flush()
+			fallthrough
 		case "hash", "commit", "reopen":
+			if toks[0] != "hash" {
+				flush()
+			}
 			r, _ := hx.Arg(at, "root")
 			ck := contentKey(secure, content)
 			if prev, ok := rootOf[ck]; ok && prev != r {
@@ -493,6 +702,9 @@ func (P) Monitor(c *hx.CaseRun) []hx.Failure {
 				fail("iter_key_order", "iter-order", "libs/trie/iterator.go", fmt.Sprintf("iteration is neither in key order nor in path order (op %d)", i))
 			}
 		case "prove":
+			if f, _ := hx.Arg(toks, "from"); f != "" && f != "0" {
+				break // Prove(fromLevel > 0) leaves out the first proof elements on purpose: nothing to verify
+			}
 			k, _ := hx.Arg(toks, "k")
 			want, ok := content[k]
 			if !ok {
